@@ -17,8 +17,11 @@ TwinCases == {[blk |-> "twin", p |-> p, x |-> [t \in 1..LenT |-> 16 * p[t] + (t 
                x2 |-> [t \in 1..LenT |-> 16 * p[LenT + 1 - t] + (t - 1)], dim |-> d, md |-> md,
                seed |-> (p[1] + 2 * p[2] + d + md) % 5,
                \* prior = 1: the object has already produced twin surrogates for the OTHER embedding dimension
-               prior |-> pr]
-              : p \in [1..LenT -> 0..2], d \in 1..2, md \in 0..2, pr \in 0..1}
+               prior |-> pr,
+               \* the recurrence threshold: 8 separates the patterns with a margin; LenT - 1 is exactly the
+               \* distance of the first and the last state of a constant stretch (a tie at the threshold: recurrent)
+               thr |-> th]
+              : p \in [1..LenT -> 0..2], d \in 1..2, md \in 0..2, pr \in 0..1, th \in {8, LenT - 1}}
 Cases == SetToSeq(SpecCases) \o SetToSeq(TwinCases)
 Numbered == [k \in 1..Len(Cases) |-> [case |-> "u" \o ToString(k)] @@ Cases[k]]
 ASSUME ndJsonSerialize(IOEnv.GEN_OUT, Numbered)
